@@ -110,6 +110,21 @@ def specialise(e, conds):
     return T().visit(copy.deepcopy(e))
 
 
+def same_wbs_subset(ps, coll, at):
+    """`[v for v in X if v.wbs is task.wbs]` (the recursion stays inside the WBS being scheduled, F38) -> X, else None"""
+    e = ps.ex.expand(coll, at) if at is not None else coll
+    e = sched.strip_seq_copy(e) if hasattr(sched, 'strip_seq_copy') else e
+    parts = facts.comp_parts(e)
+    if not parts or not isinstance(parts[1], ast.Name) or not isinstance(parts[0], ast.Name) or parts[0].id != parts[1].id or not parts[3]:
+        return None
+    v = parts[1].id
+    for c in parts[3]:
+        if not (match(f"{v}.wbs is {ps.task}.wbs", c) or match(f"{ps.task}.wbs is {v}.wbs", c) or
+                match(f"{v}.wbs == {ps.task}.wbs", c)):
+            return None
+    return parts[2]
+
+
 def jump_bound(ctx, o, ps: PassShape, pt):
     """recursive calls on dependencies (not children) pass the project bound"""
     n = 0
@@ -122,6 +137,9 @@ def jump_bound(ctx, o, ps: PassShape, pt):
             continue
         if pt is not None:
             is_dep = same(ci[1], pt['iter'])
+            if not is_dep:
+                sub = same_wbs_subset(ps, ci[1], ps.cfg.node_of(ci[0]))
+                is_dep = sub is not None and (same(sub, pt['iter']) or same(sub, ps.ex.expand(pt['iter'], ps.cfg.node_of(pt['stmt']))))
         else:
             # no `max/min([x.end ..] + [bound])` term (e.g. the bound is accumulated inside the recursion loop): recognise the
             # dependency recursion by what its collection ranges over
@@ -171,7 +189,7 @@ def jump_bound(ctx, o, ps: PassShape, pt):
 
 
 # --------------------------------------------------------------------------------------------------------------------
-def first_fit_and_greedy(ctx, o, S):
+def first_fit_and_greedy(ctx, o, S, greedy=True):
     prog = ctx.prog
     f = prog.func(S['search'])
     cfg = cfg_of(f)
@@ -284,6 +302,10 @@ def first_fit_and_greedy(ctx, o, S):
             elif extra:
                 o.undecided(fill, c, extra[0][0], "the booking is additionally conditioned on " + ', '.join(facts.cond_texts(extra))[:100])
                 continue
+        if not greedy:
+            # (C04 only asks that a day the search accepts is booked; whether the day is taken whole is C08 / C09's clause)
+            o.site(fill, c, "booking conditioned on free > 0 only")
+            continue
         amt = ex.expand(c.args[3]) if len(c.args) == 4 else None
         margs = facts.flatten_lattice(amt, 'min') if amt is not None else None
         frees = [a for a in (margs or []) if parse_free(a, S['balance'])]
